@@ -5,8 +5,12 @@
      Bind (EveryParameterBoundExactlyOnce, NoExtraNames, ErrorIffNoValidAssignment, ReservedOnlyDrops);
      spec/PyBindFlat.tla: every way of writing such a call with *seq / **map, theorem Flatten.
 (T)  (a) the same family is executed under CPython and under pyscript's interpreter; the recorded
-     outcome (class + complete binding map) of every call is validated by spec/PyBindTrace.tla;
-     (b) random multi-function programs (JSON AST) are run under both interpreters with a tracer;
+     outcome (class + the VALUE every parameter received) of every call is validated by spec/PyBindTrace.tla;
+     the values written at the defaults and arguments are a dimension of the family (valuations: distinct
+     truthy constants / falsy values of every built-in type / truthy values of other types);
+     (b) random multi-function programs (JSON AST) and two systematic families (capture: which activation
+     does a closure capture; mention: at which syntactic position does it mention the captured variable and
+     in which form did the owner bind it) are run under both interpreters with a tracer;
      the PyScope machine (spec/PyScope.tla) computes the expected log, spec/PyScopeTrace.tla compares.
      CPython rejected = the specification is wrong (MachineryFailure); pyscript rejected =
      ctx.report(signature), classified by the named deviation flags / marked loci of the specs.
@@ -36,6 +40,7 @@ WHAT = {
     ("scope", "ndflt"): "a default expression of an inner definition that reads a variable of a function further out raises NameError (only names in bodies and decorators are captured)",
     ("scope", "dyncap"): "free variables are looked up in the tables of the CALLERS on the stack when a function is defined (dynamic scoping): a caller's local shadows the global",
     ("scope", "nldyn"): "a name that an inner function declares nonlocal AND assigns is not passed on to the functions in between: its cell is looked up on the call stack when the inner function is defined - SyntaxError 'no binding for nonlocal' or a caller's same-named variable when the function in between is called from elsewhere",
+    ("scope", "annloc"): "a variable bound by an annotated assignment (x: T = value) in a function is no local for the static pre-pass (AnnAssign is not treated as a binding): it is invisible to the function's inner functions and classes (NameError, or a same-named global is used) and a read before the assignment finds an outer variable instead of raising UnboundLocalError",
     ("scope", "unexplained"): "tracer log is not the one the scoping machine computes",
     ("bind", "unexplained"): "call outcome is not the one Bind yields",
 }
@@ -74,12 +79,17 @@ def bind_jobs(ctx):
         jobs.append({"naming": "A", "sigs": sl, "nreal": ctx.pick(1, 2),
                      "py_mod": ctx.pick(8, 1), "py_rem": (ctx.seed + k) % ctx.pick(8, 1),
                      "shapes_slice": [k, nproc], "shapes_py_mod": ctx.pick(4, 1), "corrupt": 12,
+                     # the values written in the calls of the universal group: job 0 the distinct truthy constants,
+                     # job 1 falsy values of every type, job 2.. a mixture (B.valuation kinds 2 and 4)
+                     "uval": None if k == 0 else [(( 2 if k == 1 else 4) - ctx.seed) % 5 + 5 * k, ctx.seed],
                      "out": os.path.join(ctx.scratch, "bind_%d.json" % k)})
     sl = list(range(nsig))
     if DEV and os.environ.get("C03_SIGSTEP"):
         sl = sl[::int(os.environ["C03_SIGSTEP"])]
+    # naming B is also the family's VALUE dimension: signature si and its calls are written with valuation si % NVAL
+    # (identity / falsy defaults / falsy arguments / both / mixtures incl. truthy values of other types)
     jobs.append({"naming": "B", "sigs": sl, "nreal": 1, "py_mod": ctx.pick(8, 1), "py_rem": ctx.seed % ctx.pick(8, 1),
-                 "cpy_mod": ctx.pick(8, 0), "corrupt": 6, "out": os.path.join(ctx.scratch, "bind_B.json")})
+                 "cpy_mod": ctx.pick(8, 0), "corrupt": 6, "valued": ctx.seed, "out": os.path.join(ctx.scratch, "bind_B.json")})
     return jobs
 
 
@@ -99,7 +109,8 @@ def report_bind(ctx, stats, results):
     S_, C_ = B.sigs(), B.flat_calls()
     pairs_A = 0
     tot = {"pairs": 0, "cpy_cases": 0, "pys_cases": 0, "nontrivial": 0, "pys_nontrivial": 0, "ok": 0, "typeerror": 0,
-           "pys_same": 0, "pys_differ": 0}
+           "pys_same": 0, "pys_differ": 0, "valued_groups": 0, "falsy_default_bound": 0, "falsy_argument_bound": 0,
+           "corrupt_value": 0}
     locus = {}
     nrej = {"posonly-kw": 0, "dup-kw": 0, "unexplained": 0}
     ncorrupt = ncorrupt_rej = 0
@@ -135,8 +146,9 @@ def report_bind(ctx, stats, results):
             si, ci, r = order[rj["g"]][rj["j"] - 1]
             shape = cf["shapes"][g["calls"][rj["j"] - 1][0] - 1]
             obs = cf["obs"][g["calls"][rj["j"] - 1][1] - 1]
-            case = {"part": "bind", "sig": g["sig"], "shape": shape, "def": B.sig_source(g["sig"]),
-                    "call": B.shape_source(shape), "observed": obs, "expected": rj["exp"], "family_index": [si, ci, r]}
+            val = dict(g["val"])
+            case = {"part": "bind", "sig": g["sig"], "shape": shape, "val": val, "def": B.sig_source(g["sig"], val),
+                    "call": B.shape_source(shape, val), "observed": obs, "expected": rj["exp"], "family_index": [si, ci, r]}
             if rj["who"] == "cpython":
                 raise MachineryFailure("PyBind rejects CPython's own outcome: %s" % json.dumps(case))
             at = B.at_locus(g["sig"], shape)
@@ -148,6 +160,9 @@ def report_bind(ctx, stats, results):
                 ctx.report(sig, WHAT.get(("bind", why), why), case)
     if ncorrupt < 10 or ncorrupt_rej != ncorrupt:
         raise MachineryFailure("selftest: %d corrupted binding outcomes, %d rejected" % (ncorrupt, ncorrupt_rej))
+    if not os.environ.get("C03_SIGSTEP") and (tot["corrupt_value"] < 3 or tot["falsy_default_bound"] < 500 or tot["falsy_argument_bound"] < 500):
+        raise MachineryFailure("vacuous value dimension: %s" % {k: tot[k] for k in ("valued_groups", "falsy_default_bound",
+                                                                                      "falsy_argument_bound", "corrupt_value")})
     ctx.cov["selftest_corruptions_rejected"] = ctx.cov.get("selftest_corruptions_rejected", 0) + ncorrupt
     ctx.cov["bind"] = dict(tot, signatures=len(S_), flat_calls=len(C_), written_shapes_universal=len(B.all_shapes()),
                            at_locus=locus, rejections=nrej)
@@ -169,6 +184,15 @@ def scope_jobs(ctx):
     ncap = 2
     for k in range(ncap):
         jobs.append({"seeds": [], "capture": fam[k::ncap], "out": os.path.join(ctx.scratch, "scope_cap%d.json" % k)})
+    # the mention family (at which syntactic position does a closure mention the variable it captures; in which form
+    # did the owner bind it): every (position, via) in both tiers; quick: one binding form each, rotating with the
+    # seed; thorough: all eight
+    men = [(list(m), ctx.seed) for m in S.men_members(ctx.pick(1, len(S.MEN_BIND)), ctx.seed)]
+    nmen = ctx.pick(1, 3)
+    for k in range(nmen):
+        jobs.append({"seeds": [], "mention": men[k::nmen], "out": os.path.join(ctx.scratch, "scope_men%d.json" % k)})
+    # the exit family (whose declarations govern a caller's names after a callee left by an exception): every member
+    jobs[-1]["exit"] = [(list(m), ctx.seed + v) for v in range(ctx.pick(1, 3)) for m in S.exit_members()]
     return jobs
 
 
@@ -194,10 +218,13 @@ def report_scope(ctx, stats, results, label="scope"):
     accepted = []
     ncorrupt = 0
     cap = {"programs": 0, "ambiguous": 0, "nldyn": 0, "swap_corruptions": 0, "rejected": 0, "by_stack": {}, "by_via": {}}
+    men = {"programs": 0, "encsub": 0, "annloc": 0, "corruptions": 0, "rejected": 0, "by_pos": {}, "by_bind": {}, "by_via": {}}
+    exi = {"programs": 0, "excexit": 0, "rejected": 0}
     for st, res in zip(stats, results):
         for k in tot:
             tot[k] += st[k]
         cap["swap_corruptions"] += len(st.get("swap", []))
+        men["corruptions"] += st.get("mention_corrupt", 0)
         for c, n in st["constructs"].items():
             constructs[c] = constructs.get(c, 0) + n
         for d, n in st["depth"].items():
@@ -225,9 +252,31 @@ def report_scope(ctx, stats, results, label="scope"):
             mk = marks.get(pid, [])
             for x in mk:
                 marks_count[x] = marks_count.get(x, 0) + 1
-            is_masked = not m["loci"] and not [x for x in mk if x not in ("sv", "xdel", "amb")]
+            is_masked = not m["loci"] and not [x for x in mk if x not in ("sv", "xdel", "amb", "encsub", "excexit")]
             fam = m.get("family")
-            if fam:
+            if fam and fam.get("fam") == "exit":
+                # witness: the machine sees an exception leave a callee exactly in the members assembled that way
+                if ("excexit" in mk) != fam["excexit"]:
+                    raise MachineryFailure("exit family: member %s assembled with excexit=%s, the machine's census says %s\n%s"
+                                           % (pid, fam["excexit"], mk, m["src"]))
+                exi["programs"] += 1
+                exi["excexit"] += "excexit" in mk
+                exi["rejected"] += pid in rejected
+            elif fam and fam.get("fam") == "mention":
+                # witness: the machine's census agrees with how the member was assembled - the item is stored through
+                # a container / index of an enclosing activation exactly in the target positions; the annotated
+                # binding form is seen by the machine exactly in the members assembled with it
+                if ("encsub" in mk) != fam["encsub"] or ("annloc" in mk) != fam["ann"]:
+                    raise MachineryFailure("mention family: member %s assembled with encsub=%s ann=%s, the machine's census "
+                                           "says %s\n%s" % (pid, fam["encsub"], fam["ann"], mk, m["src"]))
+                men["programs"] += 1
+                men["encsub"] += "encsub" in mk
+                men["annloc"] += "annloc" in mk
+                men["rejected"] += pid in rejected
+                for dim in ("pos", "bind", "via"):
+                    key = fam[dim] + ("/" + fam["role"] if dim == "pos" else "")
+                    men["by_" + dim][key] = men["by_" + dim].get(key, 0) + 1
+            elif fam:
                 # witness: the machine's census of the ambiguous situations agrees with how the member was assembled
                 if ("amb" in mk) != fam["ambiguous"]:
                     raise MachineryFailure("capture family: member %s assembled %s a same-named variable on the stack, the "
@@ -270,6 +319,13 @@ def report_scope(ctx, stats, results, label="scope"):
         if cap["programs"] < nmem or cap["ambiguous"] < nmem // 2 or cap["swap_corruptions"] < nmem // 4:
             raise MachineryFailure("vacuous capture family: %s" % cap)
         ctx.cov["capture_family"] = cap
+        nmen = len(S.MEN_POS) * len(S.MEN_VIA)
+        if men["programs"] < nmen or men["encsub"] < nmen // 3 or men["corruptions"] < nmen:
+            raise MachineryFailure("vacuous mention family: %s" % men)
+        ctx.cov["mention_family"] = men
+        if exi["programs"] < len(S.exit_members()) or exi["excexit"] < exi["programs"] // 2:
+            raise MachineryFailure("vacuous exit family: %s" % exi)
+        ctx.cov["exit_family"] = exi
         ctx.cov["selftest_corruptions_rejected"] = ctx.cov.get("selftest_corruptions_rejected", 0) + ncorrupt
     ctx.cov[label] = dict(tot, masked_programs=masked, unmasked_programs=unmasked, masked_rejections=masked_rej,
                           unmasked_rejections=unmasked_rej, not_demanded=skipped, distinct_programs=len(shapes),
@@ -408,6 +464,14 @@ def witnesses():
                                  {"k": "ret", "e": call(N("f2")), "g": 0}]),
         S.new_code("func", nonlocals=["v0"], body=[{"k": "assign", "x": "v0", "e": {"k": "sub1", "a": N("v0")}, "g": 0},
                                                    {"k": "ret", "e": N("v0"), "g": 0}])])
+    # annloc: def f0(p0): v0: int = p0; def f1(): return v0 ; return f1()
+    add("annloc", [
+        S.new_code("module", body=[{"k": "def", "x": "f0", "c": 2, "decos": [], "g": 0},
+                                   {"k": "expr", "e": ev(1, call(N("f0"), I(5))), "g": 2}]),
+        S.new_code("func", sig=sig(["p0"]), body=[{"k": "annassign", "x": "v0", "e": N("p0"), "g": 0},
+                                                    {"k": "def", "x": "f1", "c": 3, "decos": [], "g": 0},
+                                                    {"k": "ret", "e": call(N("f1")), "g": 0}]),
+        S.new_code("func", body=[{"k": "ret", "e": N("v0"), "g": 0}])])
     return ws
 
 
@@ -417,12 +481,14 @@ def replay(ctx):
     case = rp["case"]
     if case.get("part") == "bind":
         out = os.path.join(ctx.scratch, "replay_bind.json")
-        st = run_workers("harness.drivers.c03", "work_replay_bind", [{"sig": case["sig"], "shape": case["shape"], "out": out}],
+        st = run_workers("harness.drivers.c03", "work_replay_bind",
+                         [{"sig": case["sig"], "shape": case["shape"], "val": case.get("val") or {}, "out": out}],
                          ctx.scratch, nproc=1)[0]
         res = tlc.accept_batch("PyBindTrace", out, ctx.scratch, workers=1)
         ctx.add_tlc(res, "PyBindTrace:replay")
         ctx.cov["traces_validated_against_impl"] += 1
-        print("replay bind: def %r call %r observed %s" % (B.sig_source(case["sig"]), B.shape_source(case["shape"]), st["observed"]))
+        print("replay bind: def %r call %r observed %s" % (B.sig_source(case["sig"], case.get("val")),
+                                                           B.shape_source(case["shape"], case.get("val")), st["observed"]))
         for rj in res.rejects:
             if rj["who"] == "cpython":
                 raise MachineryFailure("PyBind rejects CPython's own outcome")
@@ -436,6 +502,12 @@ def replay(ctx):
     elif isinstance(seed, str) and seed.startswith("r:"):
         via, acc, var, stack, rs = seed[2:].split("/")
         job = {"seeds": [], "capture": [([via, acc, var, stack], int(rs))], "out": out}
+    elif isinstance(seed, str) and seed.startswith("x:"):
+        exitk, status, action, depth, rs = seed[2:].split("/")
+        job = {"seeds": [], "exit": [([exitk, status, action, depth], int(rs))], "out": out}
+    elif isinstance(seed, str) and seed.startswith("n:"):
+        pos, role, via, bind, rs = seed[2:].split("/")
+        job = {"seeds": [], "mention": [([pos, role, via, bind], int(rs))], "out": out}
     else:
         job = {"seeds": [seed], "out": out}
     stats = run_workers("harness.drivers.c03_scope", "work_scope", [job], ctx.scratch, nproc=1)
@@ -443,28 +515,28 @@ def replay(ctx):
     report_scope(ctx, stats, [res], label="replay")
     meta = json.load(open(out + ".meta.json"))
     for pid, m in meta.items():
-        print("replay scope %s: %s" % (pid, "REJECTED" if any(r["id"] == pid for r in res.rejects) else "accepted"))
+        print("replay scope %s: %s" % (pid, "REJECTED" if any(r["id"] == pid and not r["who"].startswith("corrupt") for r in res.rejects) else "accepted"))
 
 
 def work_replay_bind(job):
     reserved = B.reserved_keywords()
-    sig, shape = job["sig"], job["shape"]
-    src = B.shape_source(shape)
+    sig, shape, val = job["sig"], job["shape"], job.get("val") or {}
+    src = B.shape_source(shape, val)
     T = B.Tables()
     cpy = B.CPy()
-    cpy.define(sig)
+    cpy.define(sig, val)
     oc = cpy.call(sig, src)
     box = {}
 
     async def body(hass):
         p = B.Pys()
-        await p.define(sig)
+        await p.define(sig, val)
         box["o"] = await p.call(sig, src)
 
     B.with_hass(body)
     k = T.shape(src, shape)
-    groups = [{"id": "c.r", "who": "cpython", "sig": sig, "res": [], "calls": [[k, T.outcome(oc)]]},
-              {"id": "p.r", "who": "pyscript", "sig": sig, "res": reserved, "calls": [[k, T.outcome(box["o"])]]}]
+    groups = [{"id": "c.r", "who": "cpython", "sig": sig, "res": [], "val": B.val_pairs(val), "calls": [[k, T.outcome(oc)]]},
+              {"id": "p.r", "who": "pyscript", "sig": sig, "res": reserved, "val": B.val_pairs(val), "calls": [[k, T.outcome(box["o"])]]}]
     json.dump({"shapes": T.shapes, "obs": T.obs, "groups": groups}, open(job["out"], "w"))
     return {"observed": box["o"], "cpython": oc}
 
@@ -523,10 +595,14 @@ def main(ctx):
         "them plus an unknown name and the undeclared reserved trigger_type; every (signature, flattened call) pair of naming A "
         "(756 x 785, the family of PyBindMC) is executed under CPython in %d written "
         "realisation(s) (explicit / *seq / **map) plus every written call shape against f(*va, **kw); pyscript executes %s; naming B: "
-        "a 1/8 sample of the pairs under both interpreters (thorough: all); "
+        "a 1/8 sample of the pairs under both interpreters (thorough: all), written with 20 valuations (which VALUES stand at "
+        "the defaults and arguments: the distinct truthy constants / every default falsy / every argument falsy / both / "
+        "mixtures with truthy values of other types; the universal groups of naming A likewise); "
         "non-trivial = the signature has a parameter and the call an argument; distinct by (signature, written call). "
         "scoping: random programs (nested definitions to depth 4, global/nonlocal, closures in loops, bounded recursion, "
-        "user decorators, classes, lambda/@pyscript_compile); non-trivial = at least one nested definition and one logged "
+        "user decorators, classes, lambda/@pyscript_compile, list objects with subscript / tuple / chained / annotated "
+        "assignment, for, with, del and augmented-assignment targets) + the capture family (276) + the mention family "
+        "(30 syntactic positions x 3 lexical paths, binding forms rotating); non-trivial = at least one nested definition and one logged "
         "event; distinct by source text. distinct_nontrivial = pyscript-executed non-trivial calls + distinct programs"
         % (ctx.pick(1, 2), ctx.pick("a fixed 1/8 sample of the calls (state sample)", "all of them")))
     ctx.cov["timing_s"] = {"bind_exec": round(btime[0], 1), "bind_tlc": round(btime[1], 1), "scope_exec": round(stime[0], 1),
